@@ -19,6 +19,8 @@ def plan(ctx):
         for dv in (-1, n, n + 1, INT_MAX, -INT_MAX - 1):
             variants.append((4, {"VAR": 3, "DESTV": f"({dv})"}, f"-dest{dv}"))
         for mode, extra, suffix in variants:
+            if be == XOR and mode in (3, 4):
+                continue      # flat-XOR through public decode/reconstruct: no verdict within the caps (DESIGN 10.2)
             defs = dict(BE=be, K=k, M=m, HD=hd, MODE=mode, **extra)
             obs.append(Ob(id=f"args-{names[mode]}-{BNAME[be]}{k}_{m}{suffix}", harness="c13.c", defs=defs, units=U, unwind=max(8, k + m + 3),
                           unwindset=dict({f"main.{i}": 90 for i in range(12)}, **{"ref_header.0": 84, "crc_run.0": 84, "crc_run.1": 84, "crc32.0": 84, "crc32.1": 84}),
@@ -34,7 +36,7 @@ def plan(ctx):
         obs.append(Ob(id=f"refuse-{BNAME[be]}{k}_{m}_{hd}", harness="c13_cycle.c", defs=dict(BE=be, K=k, M=m, HD=hd, EXPECT_REFUSED=None), units=U, unwind=8,
                       flags=["--memory-leak-check"], timeout=900, mem_gb=6, sample={"shape": [BNAME[be], k, m], "expect": "refused"}, targets=["liberasurecode_instance_create"]))
     accepted = [(RS, 1, 1, 1), (RS, 1, 0, 0), (RS, 3, 2, 2), (ISAV, 1, 0, 0), (ISAV, 5, 3, 3), (ISAC, 1, 1, 1), (XOR, 3, 3, 3), (XOR, 5, 5, 4), (ISAV, 28, 4, 4), (ISAC, 31, 1, 1)] + \
-               ([(RS, 10, 4, 4), (RS, 31, 1, 1), (RS, 1, 31, 31), (XOR, 20, 6, 4), (XOR, 15, 6, 3), (ISAV, 16, 16, 16), (ISAV, 1, 31, 31)] if thorough else [])
+               ([(RS, 10, 4, 4), (RS, 1, 31, 31), (XOR, 20, 6, 4), (XOR, 15, 6, 3), (ISAV, 16, 16, 16), (ISAV, 1, 31, 31)] if thorough else [])
     for be, k, m, hd in accepted:
         obs.append(Ob(id=f"cycle-{BNAME[be]}{k}_{m}_{hd}", harness="c13_cycle.c", defs=dict(BE=be, K=k, M=m, HD=hd, LEN=3), units=U, unwind=max(8, k + m + 3),
                       unwindset={"ec_init_tables.0": 40, "ec_init_tables.1": 40, "ec_init_tables.2": 40, "crc32.0": 84, "crc32.1": 84},
